@@ -4,14 +4,18 @@
    leaving (OnPodAdd / OnPodDelete), UpdateClusterTotalResource, and RefreshRuntime — the top-down
    refresh along the path with version stamps (refreshRuntimeNoLock, :286).  One
    Calc_Model.calc per quota (and one for the root); every calculator call is the transcribed
-   method of Calc_Model.v.  Feature gate ElasticQuotaGuaranteeUsage off, min-quota scaling off, no
-   change of parent / isParent / allowLent (those reset the whole tree).  Executable, no proofs.
+   method of Calc_Model.v.  Feature gate ElasticQuotaGuaranteeUsage off, no change of parent / isParent /
+   allowLent (those reset the whole tree).  Min-quota scaling (scale_minquota_when_over_root_res.go,
+   getScaledMinQuota) is modelled with the configuration switch [sc] (EnableMinQuotaScale) and an
+   exact binary64 evaluation of int64(float64(T) * float64(min) / float64(sum)) (C09.Model's
+   round-to-nearest-even emulation).  Executable, no proofs.
 
    [fx] = true is the code as it is since commit cf84410 (doUpdateOneGroupMinQuotaNoLock also
    pushes the changed request of a non-lending quota to the parent's calculator); [fx] = false is
    the code before that repair, kept as the regression witness of
    findings/C02-stale-request-after-min-update.md. *)
 From Coq Require Import List ZArith Bool.
+From Verif Require C09.Model.
 From Verif Require Import C02.Model C02.Calc_Model.
 Import ListNotations.
 Open Scope Z_scope.
@@ -28,10 +32,13 @@ Record mgr := mkM {
   g_total : Z;                       (* totalResourceExceptSystemAndDefaultUsed *)
   g_quotas : list (Z * mquota);
   g_calcs : list (Z * calc);         (* runtimeQuotaCalculatorMap; key 0 = root *)
-  g_pods : list (Z * Z * Z)          (* (quota, slot, request) *)
+  g_pods : list (Z * Z * Z);         (* (quota, slot, request) *)
+  g_hasTotal : bool                  (* totalResourceExceptSystemAndDefaultUsed has the dimension's key *)
 }.
 
-Definition mgr0 : mgr := mkM 0 [] [(0, calc0)] [].
+Definition mgr0 : mgr := mkM 0 [] [(0, calc0)] [] false.
+Definition remake (st : mgr) (t : Z) (qs : list (Z * mquota)) (cs : list (Z * calc)) (ps : list (Z * Z * Z)) : mgr :=
+  mkM t qs cs ps (g_hasTotal st).
 
 (* ---------- association lists ---------- *)
 Fixpoint afind {A} (k : Z) (l : list (Z * A)) : option A :=
@@ -46,9 +53,9 @@ Definition aset {A} (k : Z) (v : A) (l : list (Z * A)) : list (Z * A) :=
 Definition adel {A} (k : Z) (l : list (Z * A)) : list (Z * A) := filter (fun p => negb (fst p =? k)) l.
 
 Definition get_calc (k : Z) (st : mgr) : calc := match afind k (g_calcs st) with Some c => c | None => calc0 end.
-Definition set_calc (k : Z) (c : calc) (st : mgr) : mgr := mkM (g_total st) (g_quotas st) (aset k c (g_calcs st)) (g_pods st).
+Definition set_calc (k : Z) (c : calc) (st : mgr) : mgr := remake st (g_total st) (g_quotas st) (aset k c (g_calcs st)) (g_pods st).
 Definition upd_calc (k : Z) (f : calc -> calc) (st : mgr) : mgr := set_calc k (f (get_calc k st)) st.
-Definition set_quota (k : Z) (q : mquota) (st : mgr) : mgr := mkM (g_total st) (aset k q (g_quotas st)) (g_calcs st) (g_pods st).
+Definition set_quota (k : Z) (q : mquota) (st : mgr) : mgr := remake st (g_total st) (aset k q (g_quotas st)) (g_calcs st) (g_pods st).
 
 Definition with_info (mq : mquota) (q : qinfo) : mquota := mkMQ (m_parent mq) (m_isParent mq) q (m_min mq) (m_childReq mq).
 
@@ -134,7 +141,7 @@ Definition update_quota (fx : bool) (k par : Z) (isPar lnd : bool) (mx mn w : Z)
       let parent_ok := (par =? 0) || match afind par (g_quotas st) with Some p => m_isParent p | None => false end in
       if negb parent_ok || (k =? 0) then st else
       (* updateQuotaInternalNoLock(new, nil): calculators, NewQuotaInfo, then max / min / sharedWeight *)
-      let st1 := mkM (g_total st) (g_quotas st ++ [(k, mkMQ par isPar (q_new lnd 0) 0 0)])
+      let st1 := remake st (g_total st) (g_quotas st ++ [(k, mkMQ par isPar (q_new lnd 0) 0 0)])
                      (aset k calc0 (g_calcs st)) (g_pods st) in
       do_weight k (eff_weight mx w) (do_min fx k mn (do_max k mx st1))
   | Some mq =>
@@ -150,7 +157,7 @@ Definition delete_quota (k : Z) (st : mgr) : mgr :=
   | None => st
   | Some mq =>
       if has_children k st then st else
-      let st1 := mkM (g_total st) (adel k (g_quotas st)) (adel k (g_calcs st))
+      let st1 := remake st (g_total st) (adel k (g_quotas st)) (adel k (g_calcs st))
                      (filter (fun p => negb (fst (fst p) =? k)) (g_pods st)) in
       let st2 := upd_calc (m_parent mq) (deleteOneGroup k) st1 in
       let d := - limit_req (m_info mq) in
@@ -173,26 +180,55 @@ Definition pod_set (k s v : Z) (st : mgr) : mgr :=
       let st1 := match pod_find k s st with
                  | Some old =>
                      let st' := pod_request_delta k (- old) st in
-                     mkM (g_total st') (g_quotas st') (g_calcs st')
+                     remake st' (g_total st') (g_quotas st') (g_calcs st')
                          (filter (fun p => negb ((fst (fst p) =? k) && (snd (fst p) =? s))) (g_pods st'))
                  | None => st
                  end in
       if v =? 0 then st1 else
-      let st2 := mkM (g_total st1) (g_quotas st1) (g_calcs st1) (g_pods st1 ++ [(k, s, v)]) in
+      let st2 := remake st1 (g_total st1) (g_quotas st1) (g_calcs st1) (g_pods st1 ++ [(k, s, v)]) in
       pod_request_delta k v st2
   end.
 
 (* UpdateClusterTotalResource(t - total): the root calculator hears about it only if it changed *)
 Definition set_total (t : Z) (st : mgr) : mgr :=
   if t =? g_total st then st
-  else upd_calc 0 (setClusterTotalResource t) (mkM t (g_quotas st) (g_calcs st) (g_pods st)).
+  else upd_calc 0 (setClusterTotalResource t) (mkM t (g_quotas st) (g_calcs st) (g_pods st) true).
 
-(* refreshRuntimeNoLock(k): top-down along the path; every level but the last hands its runtime to
-   its own calculator as the total (which bumps that calculator's version every time) *)
-Fixpoint refresh_down (pth : list Z) (st : mgr) : mgr :=   (* pth: top first *)
+(* ---------- min-quota scaling (ScaleMinQuotaManager, all quotas enabled) ----------
+   enableScaleSubsSumMinQuotaMap[p] is the sum of the declared mins of p's children (maintained
+   incrementally by update/remove in the code; the same number), originalMinQuotaMap[k] = Min(k). *)
+Definition esum (p : Z) (st : mgr) : Z :=
+  sumZ (map (fun e => m_min (snd e)) (filter (fun e => m_parent (snd e) =? p) (g_quotas st))).
+
+(* int64(float64(T) * float64(m) / float64(E)), every operation rounded to binary64 *)
+Definition scaled_min (T m E : Z) : Z :=
+  if T <=? 0 then 0
+  else if 0 <? E then C09.Model.f_trunc (C09.Model.f_div (C09.Model.f_mul (C09.Model.f_of_int T) (C09.Model.f_of_int m)) (C09.Model.f_of_int E)) else 0.
+
+(* getScaledMinQuota in one dimension: scaling only where the total is BELOW the sum of the mins
+   ([hk]: the total has the dimension's key at all) *)
+Definition get_scaled (hk : bool) (T E m : Z) : Z := if hk && (T <? E) then scaled_min T m E else m.
+
+(* step 1 of a level of refreshRuntimeNoLock: updateOneGroupAutoScaleMinQuotaNoLock *)
+Definition scale_level (sc : bool) (k T : Z) (hk : bool) (st : mgr) : mgr :=
+  match afind k (g_quotas st) with
+  | None => st
+  | Some mq =>
+      let nm := get_scaled hk T (esum (m_parent mq) st) (m_min mq) in
+      if sc && negb (q_min (m_info mq) =? nm)
+      then let q1 := q_set_min nm (m_info mq) in
+           upd_calc (m_parent mq) (updateOneGroupMinQuota k q1) (set_quota k (with_info mq q1) st)
+      else st
+  end.
+
+(* refreshRuntimeNoLock(k): top-down along the path with the total [T] handed down; every level
+   but the last hands its runtime to its own calculator as the total (which bumps that
+   calculator's version every time) *)
+Fixpoint refresh_down (sc : bool) (pth : list Z) (T : Z) (hk : bool) (st0 : mgr) : mgr :=   (* pth: top first *)
   match pth with
-  | [] => st
+  | [] => st0
   | k :: rest =>
+      let st := scale_level sc k T hk st0 in
       match afind k (g_quotas st) with
       | None => st
       | Some mq =>
@@ -204,10 +240,11 @@ Fixpoint refresh_down (pth : list Z) (st : mgr) : mgr :=   (* pth: top first *)
                      | [] => st1
                      | _ => upd_calc k (setClusterTotalResource (q_runtime q')) st1
                      end in
-          refresh_down rest st2
+          refresh_down sc rest (q_runtime q') true st2
       end
   end.
-Definition refresh (k : Z) (st : mgr) : mgr := refresh_down (rev (path k st)) st.
+Definition refresh (sc : bool) (k : Z) (st : mgr) : mgr :=
+  refresh_down sc (rev (path k st)) (g_total st) (g_hasTotal st) st.
 
 Inductive mop :=
 | MUpdate (k par : Z) (isPar lnd : bool) (mx mn w : Z)
@@ -225,22 +262,29 @@ Definition mstep (fx : bool) (st : mgr) (o : mop) : mgr :=
   | MNoop => st
   end.
 
-(* after every op: RefreshRuntime of the quotas 1..K in name order; -1 for a name that is not live *)
-Fixpoint mobserve (ks : list Z) (st : mgr) : mgr * list Z :=
+(* after every op: RefreshRuntime of the quotas 1..K in name order; -1 for a name that is not live.
+   With scaling on, the scaled mins of a level are brought up to date one quota at a time as each is
+   refreshed, so three silent passes come first and the fourth is logged. *)
+Fixpoint mobserve1 (sc : bool) (ks : list Z) (st : mgr) : mgr * list Z :=
   match ks with
   | [] => (st, [])
   | k :: t =>
       match afind k (g_quotas st) with
-      | None => let '(st', o) := mobserve t st in (st', -1 :: o)
+      | None => let '(st', o) := mobserve1 sc t st in (st', -1 :: o)
       | Some _ =>
-          let st1 := refresh k st in
+          let st1 := refresh sc k st in
           let r := match afind k (g_quotas st1) with Some mq => q_runtime (m_info mq) | None => -1 end in
-          let '(st', o) := mobserve t st1 in (st', r :: o)
+          let '(st', o) := mobserve1 sc t st1 in (st', r :: o)
       end
   end.
 
-Fixpoint mrun_obs (fx : bool) (K : nat) (st : mgr) (ops : list mop) : list Z :=
+Definition mobserve (sc : bool) (ks : list Z) (st : mgr) : mgr * list Z :=
+  if sc then
+    mobserve1 sc ks (fst (mobserve1 sc ks (fst (mobserve1 sc ks (fst (mobserve1 sc ks st))))))
+  else mobserve1 sc ks st.
+
+Fixpoint mrun_obs (fx sc : bool) (K : nat) (st : mgr) (ops : list mop) : list Z :=
   match ops with
   | [] => []
-  | o :: t => let '(st', obs) := mobserve (ids K) (mstep fx st o) in obs ++ mrun_obs fx K st' t
+  | o :: t => let '(st', obs) := mobserve sc (ids K) (mstep fx st o) in obs ++ mrun_obs fx sc K st' t
   end.
